@@ -1,5 +1,5 @@
 """C06 (MAC family: MacTrace.tla)."""
-from . import macfam, core
+from . import macfam, core, mcnb
 PID = "C06"
 
 
@@ -14,7 +14,11 @@ def run():
         'enumerated: every async procedure (send|join x RX1 x RX2 outcome in {nothing, authentic, MIC-broken, oversize} x fault position none/0..9) followed by a second procedure or Class C listening, and the nb state machine under free-form event sequences; plus seeded random histories with a radio fault at a random call position in half of the async procedures, confirmed/unconfirmed sends, RX1/RX2 hits, timeouts, invalid frames, Class C receptions; every transmitted uplink is decoded by Codec.tla (wire counter = low half, MIC under the full counter) and the counter after every call is compared with Mac.tla (consumed also when the procedure aborts after a successful tx)',
         macfam.COMMON_ASSUMPTIONS, mc=[("MCFront.tla", "MCFront.cfg", {"workers": 8}),
             # the same model with the REAL constants: counters at 0, across the 16-bit roll-over and at 2^32-4 .. 2^32-2
-            ("MCFront.tla", "MCFrontReal.cfg", {"workers": 6})])
+            ("MCFront.tla", "MCFrontReal.cfg", {"workers": 6}),
+            # the nb front-end as a design-level model: every order of application requests, radio and timer events
+            ("MCNb.tla", "MCNb.cfg", {"workers": 4})],
+        # specification -> implementation: one event sequence per transition of MCNb, executed on the real nb device
+        extra=[mcnb.extra(PID)])
 
 
 def replay(path):
